@@ -39,7 +39,7 @@ pub fn build_helper(env: &Env, ws_name: &str, pkg: &str, deps_toml: &str, main_r
     }
     let run = |ws: &Path| {
         std::process::Command::new("cargo")
-            .args(["build", "--offline", "--quiet"])
+            .args(["build", "--offline", "--quiet", "-j", "6"])
             .current_dir(ws)
             .env("CARGO_TARGET_DIR", ws.join("target"))
             .env("CARGO_NET_OFFLINE", "true")
